@@ -1,6 +1,7 @@
 import FFVerif.Props.C03a
 import FFVerif.Props.C03c
 import FFVerif.Props.C03d
+import FFVerif.Props.C04Tile
 import FFVerif.Pins.pinConcatenate
 import FFVerif.Pins.pinConcatenateWithoutFF
 import FFVerif.Pins.pinControlMatrixFromAtomic
@@ -73,6 +74,29 @@ import FFVerif.Pins.pinConcatenateHamiltonian
 #print axioms FFVerif.C03d.error_iff
 #print axioms FFVerif.C03d.error_small
 #print axioms FFVerif.C03d.no_other_errors
+#print axioms FFVerif.C04Tile.hamiltonian_append
+#print axioms FFVerif.C04Tile.hamiltonian_concat_segment
+#print axioms FFVerif.C04Tile.propagators_append
+#print axioms FFVerif.C04Tile.total_propagator_append
+#print axioms FFVerif.C04Tile.concatTotalPropagator_pair
+#print axioms FFVerif.C04Tile.propagators_concat
+#print axioms FFVerif.C04Tile.total_propagator_concat
+#print axioms FFVerif.C04Tile.concatTotalPropagator_eq_from_scratch
+#print axioms FFVerif.C04Tile.cumL_eq_liouville_prodTotal
+#print axioms FFVerif.C04Tile.concatL_eq_liouville_from_scratch
+#print axioms FFVerif.C04Tile.times_concat
+#print axioms FFVerif.C04Tile.tau_concat
+#print axioms FFVerif.C04Tile.isDiag_concat2
+#print axioms FFVerif.C04Tile.isDiag_concatSeq
+#print axioms FFVerif.C04Tile.concatSeq_Qtot
+#print axioms FFVerif.C04Tile.concatTotalPropagator_eq_concatSeq
+#print axioms FFVerif.C04Tile.concatSeq_tau
+#print axioms FFVerif.C04Tile.concat2_segments
+#print axioms FFVerif.C04Tile.concat_cm_eq_diag_from_scratch
+#print axioms FFVerif.TileAux.mdot_toMatrix
+#print axioms FFVerif.TileAux.concatTau_eq_sum
+#print axioms FFVerif.TileAux.propagators_block
+#print axioms FFVerif.TileAux.times_block
 #print axioms FFVerif.Pins.pinConcatenate
 #print axioms FFVerif.Pins.pinConcatenateWithoutFF
 #print axioms FFVerif.Pins.pinControlMatrixFromAtomic
